@@ -30,6 +30,13 @@ CLAIMED.update({
    note="Blocks that bypass MemoryManager are outside the ledger (LSan not run). OutOfMemoryException endings are not judged by the leak oracle (not among the endings the statement lists; the scanners skip clean-up on it by design)."),
 })
 
+CLAIMED.update({
+ "C17": dict(engine="threadsim", cat="exploration", ref="5.C17 and 3.5",
+   technique="deterministic simulation with fault injection: real threads parked and released one at a time by a seeded baton scheduler at every XMLMutex operation, at a fraction of allocations and at operation boundaries; ThreadSanitizer (blind to the uninstrumented baton) as deterministic happens-before race detector; deadlock detection; per-thread result digest vs single-thread run",
+   text="Each simulated run initialises the library, optionally builds and locks a shared grammar pool, and starts 2-6 (thorough: up to 12) real threads with independent seeded workloads on private objects (parsers of all APIs and scanners, typed schema instances against the process-wide built-in datatypes, parsers on the shared locked pool with new namespace URIs, DOM build/normalise/serialise incl. owner-less doctypes, regular expressions with category and block escapes, transcoding, exception message loading, parser create/destroy). Exactly one thread runs at a time; a seeded scheduler (uniform, PCT priorities with change points, long bursts) picks the next at every scheduling point, so one seed is one interleaving, replayed exactly. Every run executes in a freshly forked process so that ThreadSanitizer's per-process de-duplication cannot hide a report. Oracles: any TSan report (race, vptr race) not listed as known finding; deadlock (no runnable thread); crash; per-thread digests equal to the same operation lists run sequentially.",
+   note="TSan sees instrumented code only (not ICU, not libc). The simulated XMLMutexMgr enforces mutual exclusion through the scheduler (std::recursive_mutex of StdMutexMgr is never locked). The tsan variant of xerces-c is built with -fno-inline so that reports can be classified by the binary's own symbol table."),
+})
+
 NOT_APPLICABLE = {
  "C03": "pure function of (document text, settings) to an event stream; no schedule, fault or history in it - deciding it needs an independent infoset oracle over generated inputs (property-based testing), not simulation; its only environment-dependent part (refill boundaries) is decided under C04",
  "C05": "finite pure function over code points and byte sequences, decided by enumeration, not by sampling schedules or faults; 'every buffer split position' is exercised by C04's targeted chunking",
